@@ -9,11 +9,12 @@
 (* once with the expected strings.                                         *)
 (***************************************************************************)
 EXTENDS Describe, Json
-CONSTANTS MaxSets, KeyUniverse, Emit
+CONSTANTS MaxSets, KeyUniverse, Emit,
+          Deep      \* TRUE: the deep programs (trees of several hundred levels) instead of the standard family
 L(x) == <<"lit", x>>
 Rf(x) == <<"ref", x>>
 \* programs containing every kind, `-` as prefix and as infix, f as function and as reference
-Programs == <<
+StdPrograms == <<
   <<"bin", "-", <<"un", "-", Rf("x")>>, <<"bin", "+", L("1"), Rf("f")>>>>,
   <<"tern", <<"un", "!", Rf("x")>>, <<"call", "f", <<Rf("x"), L("2")>>>>, <<"call", "g", <<>>>>>>,
   <<"stmt", <<<<"post", Rf("x"), "++">>, <<"list", <<L("1"), <<"post", L("2"), "--">>>>>>, <<"map", <<<<Rf("f"), L("true")>>, <<L("3"), <<"list", <<>>>>>>>>>>>>>>,
@@ -21,6 +22,15 @@ Programs == <<
   <<"call", "g", <<<<"tern", Rf("x"), <<"none">>, <<"bin", "=", Rf("x"), L("1")>>>>>>>>,
   <<"bin", "-", <<"un", "++", Rf("x")>>, <<"post", <<"un", "--", Rf("f")>>, "--">>>>,
   Rf("f"), L("7"), <<"none">> >>
+\* trees far deeper than anything the parser's nesting budget (256) lets through in one construct: `x not in x not in ...` gives
+\* two levels per operator, and an ExprAST may be built directly; every node still gets its own descriptor
+RECURSIVE DeepChain(_)
+DeepChain(n) == IF n = 0 THEN Rf("x") ELSE <<"un", "not", <<"bin", "in", DeepChain(n - 1), Rf("x")>>>>
+RECURSIVE DeepList(_)
+DeepList(n) == IF n = 0 THEN L("1") ELSE <<"list", <<DeepList(n - 1), Rf("x")>>>>
+DeepPrograms == << DeepChain(127), DeepChain(129), DeepChain(200), DeepList(255), DeepList(300) >>
+Programs == IF Deep THEN DeepPrograms ELSE StdPrograms
+DeepKeys == {<<"unary", "not">>, <<"binary", "in">>, <<"reference", "x">>, <<"list", "">>}
 AllKeys == {<<"unary", "-">>, <<"unary", "!">>, <<"unary", "++">>, <<"unary", "--">>, <<"binary", "-">>, <<"binary", "+">>, <<"postfix", "++">>, <<"postfix", "--">>, <<"ternary", "">>,
             <<"function", "f">>, <<"function", "g">>, <<"reference", "f">>, <<"reference", "x">>, <<"list", "">>, <<"map", "">>, <<"chain", "">>}
 Ids == {"A", "B"}
